@@ -61,7 +61,7 @@ const INT_TYPES: [(&str, i128, i128); 9] = [
     ("usize", 0, u64::MAX as i128),
 ];
 
-const RENAMES: [&str; 14] = ["with space", "quo\"te", "back\\slash", "ünï", "emoji😀", "", "new\nline", "{curly}", "a:b", "comma,", "null", "0", "tab\there", "/slash/"];
+const RENAMES: [&str; 22] = ["with space", "quo\"te", "back\\slash", "ünï", "emoji😀", "", "new\nline", "{curly}", "a:b", "comma,", "null", "0", "tab\there", "/slash/", "cr\rhere", "nul\0byte", "del\u{7f}", "apo'strophe", "zero\u{200b}width", "\\\"both\"\\", "\\u0041", "\\n"];
 const IDENTS: [&str; 12] = ["a", "b_c", "camelCase", "x1", "_private", "value", "name", "data2", "ünï", "long_identifier_name", "q", "zz"];
 const STRINGS: [&str; 10] = ["", "hello", "with \"quotes\" and \\ backslash", "ünï çödé 😀", "line\nbreak\ttab", "\u{0}\u{1f}\u{7f}", "null", "{\"a\":1}", "a/b", "\u{2028}\u{ffff}"];
 
@@ -179,6 +179,29 @@ fn gen_types(rng: &mut Lcg, n: usize) -> Vec<TypeDef> {
         };
         let via_map = matches!(kind, Kind::Struct(_)) && rng.next() % 3 == 0;
         types.push(TypeDef { name, kind, via_map });
+    }
+    // covering types, appended to every batch: every rename string is the JSON name of an enum variant, of a derived
+    // struct's field and of a json_map! field at least once per batch (the random types above pick renames with
+    // probability 1/3 each, which left a given (kind, rename) pair out of most quick batches)
+    for (ci, chunk) in RENAMES.chunks(8).enumerate() {
+        let vs: Vec<(String, String)> = chunk.iter().enumerate().map(|(i, r)| (format!("V{}", i), r.to_string())).collect();
+        types.push(TypeDef { name: format!("CoverE{}", ci), kind: Kind::Enum(vs), via_map: false });
+        for via_map in [false, true] {
+            let fields: Vec<(String, String, FT)> = chunk
+                .iter()
+                .enumerate()
+                .map(|(i, r)| {
+                    let ft = match (i + ci) % 4 {
+                        0 => FT::Int("u8"),
+                        1 => FT::Str,
+                        2 => FT::Opt(Box::new(FT::Str)),
+                        _ => FT::Bool,
+                    };
+                    (format!("f{}", i), r.to_string(), ft)
+                })
+                .collect();
+            types.push(TypeDef { name: format!("Cover{}{}", if via_map { "M" } else { "S" }, ci), kind: Kind::Struct(fields), via_map });
+        }
     }
     types
 }
@@ -512,9 +535,11 @@ pub fn gen_batch(seed: u64, ntypes: usize, values_per_type: usize, nlits: usize)
             Kind::Tuple(ts) => ts.iter().any(|t| matches!(t, FT::Opt(_) | FT::Vec(_) | FT::Named(_))),
             _ => false,
         };
-        for _ in 0..values_per_type {
+        // enums: one value per variant (then random ones up to the usual count); everything else: random values
+        let nvariants = if let Kind::Enum(vs) = &types[k].kind { vs.len() } else { 0 };
+        for vi in 0..values_per_type.max(nvariants) {
             let mut beyond = false;
-            let v = gen_val(&mut rng, &FT::Named(k), &types, &mut beyond);
+            let v = if vi < nvariants { Val::Enum(k, vi) } else { gen_val(&mut rng, &FT::Named(k), &types, &mut beyond) };
             let expr = val_rust(&v, &types);
             let text = val_json(&v, &types);
             let tn = &types[k].name;
